@@ -2332,7 +2332,11 @@ evutil_inet_pton(int af, const char *src, void *dst)
 				return 0;
 			if (EVUTIL_ISXDIGIT_(*src)) {
 				char *next;
-				long r = strtol(src, &next, 16);
+				long r;
+				/* strtol() would swallow a "0x" prefix */
+				if (src[0] == '0' && (src[1] == 'x' || src[1] == 'X'))
+					return 0;
+				r = strtol(src, &next, 16);
 				if (next > 4+src)
 					return 0;
 				if (next == src)
